@@ -61,7 +61,7 @@ try:
         shutil.copy(diff, os.path.join(dst, 'patch.diff'))
         shutil.copy(demo, os.path.join(dst, 'demo.py'))
         notes = open(os.path.join(seed, 'notes.md')).read() if os.path.exists(os.path.join(seed, 'notes.md')) else ''
-        meta = {'property': pid, 'source': 'independent sub-agent given only the property text', 'mutant': 'mutant%s' % n,
+        meta = {'property': pid.split('-')[-1], 'source': 'independent sub-agent given only the property text', 'mutant': 'mutant%s' % n,
                 'confirmed': res, 'ran': ['demo on HEAD copy (expect 0)', 'demo on mutated copy (expect non-zero)', 'pytest -n 8 on mutated copy', 'python3-vt check.py all with VERIF_REPO=<mutated copy>'],
                 'caught_by': sorted(k for k in caught if k != 'ANALYSIS-ERROR')}
         json.dump(meta, open(os.path.join(dst, 'meta.json'), 'w'), indent=1)
